@@ -578,17 +578,43 @@ def generate(kernels=None) -> t.Dict[str, dict]:
             cmt = why.replace("(*", "( *").replace("*)", "* )")
             out.append(f"(* {file}: {fsync} and {fasync} compared as normalised ASTs: {cmt} *)\n"
                        f"Definition {nm} : bool := {'true' if same else 'false'}.\n\n")
-        new = "".join(out)
-        path = os.path.join(COQ, "gen", _kt.kernel_file(area))
-        old = None
-        if os.path.exists(path):
-            with open(path) as fh:
-                old = fh.read()
-        if old != new:
-            os.makedirs(os.path.dirname(path), exist_ok=True)
-            with open(path, "w") as fh:
-                fh.write(new)
+        _write_if_changed(os.path.join(COQ, "gen", _kt.kernel_file(area)), "".join(out))
+        # whole functions as deep-embedded syntax (vlib/flow.py -> Prelude/PyAst.v)
+        flows = list(getattr(mod, "FLOWS", []))
+        if flows:
+            from . import flow as _flow
+
+            _flow._CACHE.clear()
+            fout = [_flow.HEADER]
+            for k in flows:
+                fb_path = os.path.join(COQ, "gen_fallback", k.name + ".v")
+                try:
+                    text = _flow.translate(k)
+                    status[k.name] = {"located": True, "source": f"<whole body of {k.file}::{k.func} as Prelude/PyAst syntax>"}
+                except (Unsupported, OSError, SyntaxError) as exc:
+                    status[k.name] = {"located": False, "reason": str(exc)}
+                    if os.path.exists(fb_path):
+                        with open(fb_path) as fh:
+                            text = fh.read()
+                    else:
+                        status[k.name]["reason"] += " (no committed fallback: omitted)"
+                        text = f"(* flow {k.name} not translated and no fallback *)\n"
+                status[k.name]["text"] = text
+                status[k.name]["props"] = list(k.props)
+                fout.append(text + "\n")
+            _write_if_changed(os.path.join(COQ, "gen", _kt.flow_file(area)), "".join(fout))
     return status
+
+
+def _write_if_changed(path: str, new: str) -> None:
+    old = None
+    if os.path.exists(path):
+        with open(path) as fh:
+            old = fh.read()
+    if old != new:
+        os.makedirs(os.path.dirname(path), exist_ok=True)
+        with open(path, "w") as fh:
+            fh.write(new)
 
 
 def same_modulo_async(file: str, sync_name: str, async_name: str, renames: t.Dict[str, str]) -> t.Tuple[bool, str]:
@@ -661,3 +687,16 @@ def write_fallbacks(kernels=None) -> None:
             continue
         with open(os.path.join(COQ, "gen_fallback", k.name + ".v"), "w") as fh:
             fh.write(text)
+    from . import flow as _flow
+
+    for area, mod in _kt.areas().items():
+        if isinstance(mod, Exception):
+            continue
+        for k in getattr(mod, "FLOWS", []):
+            try:
+                text = _flow.translate(k)
+            except Unsupported as exc:
+                print("not translated:", k.name, exc)
+                continue
+            with open(os.path.join(COQ, "gen_fallback", k.name + ".v"), "w") as fh:
+                fh.write(text)
